@@ -82,7 +82,8 @@ CHECKS["C19"] = dict(
        "language generated from the format string (independent table) by regular-language inclusion in both directions - all texts. "
        "Subsets: sampled subsets decided likewise. Validation (VCs over the real Date.__init__, all strings, lists up to length 3): "
        "InvalidArgumentValueException iff some selected format is not documented, nothing else raised; Date.__date_formats proved to "
-       "return exactly the 48 documented formats.",
+       "return exactly the 48 documented formats; and for every selection the emitted pattern IS the alternation, in order, of the "
+       "selected formats' own patterns (Either chain, word-bounded unless extensible), so arbitrary subsets reduce to the 48 decided ones.",
   note="Relative to R3,R4,R6,R7, the rx2smt translator (cross-checked against re each run), z3 regex theory + derivative-product "
        "decision procedure (both must agree), specs/dates.py. Arbitrary subsets rest on Either's contract (C02).",
   technique="postcondition on the emitted pattern decided for all texts by regular-language inclusion (z3 regex theory cross-checked by a derivative-product procedure); finite parameter domain executed on the real code",
@@ -184,7 +185,9 @@ CHECKS["C15"] = dict(
        "variants likewise. __Integer.__integer itself (digit loop building nested look-behinds) is outside the solvers' reach for "
        "symbolic parameters, hence exploration. Argument validation IS proved (VCs over __Integer.__init__ and the four public "
        "constructors, all integers and argument kinds): InvalidArgumentTypeException iff a bound is not an int (bool excluded), "
-       "InvalidArgumentValueException iff start < 0 or start > end, nothing else raised.",
+       "InvalidArgumentValueException iff start < 0 or start > end, nothing else raised; and for ALL (start, end) the emitted pattern IS "
+       "the reference sign text of the class followed by __integer(start, end, is_extensible) - only that digits pattern remains "
+       "bounded in its parameters.",
   note=LANGNOTE, technique="per-parameter complete language decision of the emitted pattern (SMT regex theory + derivative-product procedure), labelled bounded in the parameters",
   design_ref="DESIGN.md section 8 (C15), 7 (B5)")
 CHECKS["C16"] = dict(
@@ -192,8 +195,10 @@ CHECKS["C16"] = dict(
   text="As C15 for Decimal / UnsignedDecimal / NegativeDecimal: per parameter tuple (ranges x fraction-length bounds x is_extensible) "
        "the emitted language in every context equals 'integer part of the corresponding Integer pattern (or none when start is 0) . "
        "min..max digits'. Argument validation proved by VCs over __Decimal.__init__ and the four public constructors (all integers "
-       "and argument kinds, exceptions iff documented). PositiveDecimal / include_sign: only constructed and validated (their sign "
-       "rules are not documented precisely).",
+       "and argument kinds, exceptions iff documented), and for ALL parameters the emitted pattern IS (the corresponding Integer "
+       "pattern | the reference text for a missing integer part, only when start == 0) + '.' + Numeral(10, min, max) - a chain of "
+       "operations under contract. PositiveDecimal / include_sign: structure proved likewise; their language is not decided (the "
+       "sign rules are not documented precisely).",
   note=LANGNOTE, technique="per-parameter complete language decision of the emitted pattern, labelled bounded in the parameters",
   design_ref="DESIGN.md section 8 (C16)")
 CHECKS["C17"] = dict(
@@ -202,7 +207,11 @@ CHECKS["C17"] = dict(
        "metacharacters) the emitted language in every context equals the documented reference language (Numeral: standalone "
        "strings of n_min..n_max digits of the base; Word: maximal runs of word characters; Word*: words containing / starting / "
        "ending with a literal affix). Argument validation proved by VCs over the five real constructors (all integers / argument "
-       "kinds; affix lists up to length 2 with arbitrary contents): exceptions iff documented, nothing else raised.",
+       "kinds; affix lists up to length 2 with arbitrary contents): exceptions iff documented, nothing else raised; and for ALL "
+       "bounds the emitted pattern IS the method chain AnyWordChar(g).at_least_at_most(min, max) [word-bounded] (Word), "
+       "Either(affixes) enclosed by / followed by / preceded by AnyWordChar(g).indefinite() (Word*), the digit class of the base "
+       "repeated n_min..n_max times (Numeral; the 15 digit classes are decided completely) - so the per-tuple language decisions "
+       "are cross-checks of a statement proved for all integers, relative to C02/C04's contracts and R3.",
   note=LANGNOTE, technique="per-parameter complete language decision of the emitted pattern against a reference language, labelled bounded in the parameters",
   design_ref="DESIGN.md section 8 (C17)")
 
